@@ -9,6 +9,25 @@ from contracts import v_codegen as cg
 F = cg.F
 P01 = ("C01", "C06")
 
+STUBS2 = r"""
+    // ASSUMED contracts (as for compile_node): compile_assign / compile_multi_assign / compile_make_map in export mode
+    #[verifier::external_body]
+    fn compile_assign(&mut self, target: AstIndex, expression: AstIndex, export_assignment: bool, ctx: CompileNodeContext) -> (r: Result<CompileNodeOutput>)
+        requires old(self).g@.spans.len() > 0,
+        ensures r matches Ok(out) ==> Self::sub_post(old(self), final(self), ctx.result_register, out) && (ctx.result_register is None ==> out.register is None),
+    { unimplemented!() }
+    #[verifier::external_body]
+    fn compile_multi_assign(&mut self, targets: &AstVec<AstIndex>, expression: AstIndex, export_assignment: bool, ctx: CompileNodeContext) -> (r: Result<CompileNodeOutput>)
+        requires old(self).g@.spans.len() > 0,
+        ensures r matches Ok(out) ==> Self::sub_post(old(self), final(self), ctx.result_register, out) && (ctx.result_register is None ==> out.register is None),
+    { unimplemented!() }
+    #[verifier::external_body]
+    fn compile_make_map(&mut self, entries: &AstVec<AstIndex>, export_entries: bool, ctx: CompileNodeContext) -> (r: Result<CompileNodeOutput>)
+        requires old(self).g@.spans.len() > 0,
+        ensures r matches Ok(out) ==> Self::sub_post(old(self), final(self), ctx.result_register, out) && (ctx.result_register is None ==> out.register is None),
+    { unimplemented!() }
+"""
+
 KEEP_FNS = {"none", "with_assigned", "with_temporary", "with_register", "with_any_register", "with_fixed_register", "node_with_span", "node",
             "assign_result_register", "compile_load_non_local", "compile_constant_op"}
 
@@ -55,6 +74,43 @@ UNIT = Unit(
         r matches Ok(out) ==> (ctx.result_register matches ResultRegister::Fixed(x) ==> out.register == Some(x) && !out.is_temporary),    // @result_request_is_honoured
         r is Ok ==> final(self).same_frame_state(old(self)) || final(self).g@.regs == old(self).g@.regs + 1,
         r is Ok ==> final(self).g@.patched == old(self).g@.patched && final(self).g@.spans == old(self).g@.spans && final(self).g@.loops == old(self).g@.loops,   // @frame_state_kept
+"""),
+        # ---- export
+        Raw(STUBS2, impl_of="impl Compiler"),
+        Fn(F, "impl<'a> CompileNodeContext<'a> :: fn with_fixed_register_or_any", props=P01,
+           spec="    ensures r.ast == self.ast && r.result_register == (if self.result_register is Fixed { self.result_register } else { ResultRegister::Any }),\n"),
+        Fn(F, "impl Compiler :: fn compile_export_iterable", props=("C18", "C01", "C06"),
+           spec=r"""
+    requires old(self).g@.spans.len() > 0,
+    ensures
+        // `export <expression>`: the value is iterated, every entry it yields is exported, and the loop is left when the
+        // iterator is exhausted (the IterNextTemp jump lands right after the backward jump)
+        r is Ok ==> ({
+            let t = final(self).g@.trace; let n = old(self).g@.trace.len() as int;
+            &&& t.len() == n + 5 && prefix(old(self).g@.trace, t)
+            &&& (t[n] matches Ev::Op { op, args, .. } && op == Op::MakeIterator && args.len() == 2 && args[1] == iterable_register
+                && (t[n + 1] matches Ev::Op { op: o2, args: a2, .. } && o2 == Op::IterNextTemp && a2.len() == 2 && a2[1] == args[0]
+                    && t[n + 2] is Hole && t[n + 3].is_op(Op::ExportEntry, seq![a2[0]])
+                    && (t[n + 4] matches Ev::Back { op: o4, target, .. } && o4 == Op::JumpBack && target == t[n + 1].pos())))
+            &&& final(self).g@.patched.contains_key(t[n + 2].pos()) && final(self).g@.patched[t[n + 2].pos()] == final(self).len() }),       // @every_entry_exported_loop_left_when_exhausted
+        r is Ok ==> final(self).g@.regs == old(self).g@.regs && final(self).len() >= old(self).len(),                                     // @temporaries_released
+        r is Ok ==> Self::frame_post(old(self), final(self), old(self).len()),
+"""),
+        Fn(F, "impl Compiler :: fn compile_export", props=("C18", "C01", "C06"),
+           spec=r"""
+    requires old(self).g@.spans.len() > 0,
+    ensures
+        // the result-register protocol, whatever is exported
+        r matches Ok(out) ==> final(self).g@.regs == old(self).g@.regs + (if out.is_temporary { 1int } else { 0 }),                       // @temporaries_released
+        r matches Ok(out) ==> (out.is_temporary ==> ctx.result_register is Any),
+        r matches Ok(out) ==> (ctx.result_register is None ==> out.register is None),                                                     // @result_request_is_honoured
+        // anything but an assignment or a map literal is evaluated (into the register asked for, else one of its own) and
+        // its entries exported
+        r matches Ok(out) ==> (!(ctx.ast.at(expression).node is Assign || ctx.ast.at(expression).node is MultiAssign || ctx.ast.at(expression).node is Map) ==> ({
+            let t = final(self).g@.trace; let n = old(self).g@.trace.len() as int;
+            t.len() == n + 6 && prefix(old(self).g@.trace, t)
+                && t[n].is_node(expression, if ctx.result_register is Fixed { ctx.result_register } else { ResultRegister::Any })
+                && (t[n + 1] matches Ev::Op { op, args, .. } && op == Op::MakeIterator && args.len() == 2 && args[1] == t[n].reg()) })),          // @expression_evaluated_then_its_entries_exported
 """),
     ],
     epilogue=r"""
